@@ -20,7 +20,7 @@
 (* coverage (every planned fault point produced a record whose fault       *)
 (* really fired at the planned system call) is a POSTCONDITION.            *)
 (***************************************************************************)
-EXTENDS PersistPreds, Json, IOUtils, TLC, Integers
+EXTENDS PersistPreds, Json, IOUtils, TLC, Integers, SequencesExt
 
 VARIABLES l, viols, planned, covered, done
 
